@@ -278,7 +278,7 @@ def run_cbmc(job, wd, tier, inputs):
             m = re.match(r'(.*)\.unwind\.(\d+)$', nm)
             if cls == 'BOUND' and m: grow.append('%s.%s' % (m.group(1), m.group(2)))
         if not grow: break
-        for nm in grow: bounds[nm] = bounds.get(nm, 1) + 3   # bound too small: reported by the unwinding assertion, raised, re-run
+        for nm in grow: bounds[nm] = max(bounds.get(nm, 1) + 3, 2 * bounds.get(nm, 1))   # bound too small: reported by the unwinding assertion, raised, re-run
         res['refined'] = grow
     res['rounds'] = rounds; res['t_profile_and_rounds'] = round(time.time() - t0, 1); res['bound_hints_from_concrete_runs'] = len(hints)
     return res
